@@ -1,10 +1,9 @@
 (* C02 - returned metadata is self-contained: part (a), the shape of the returned metadata.
    Statements only; proofs in Mp4/LoopProofsMeta.v (on Mp4/HeaderProofs.v and the closed form of the loop).
-   Part (b), re-sanitizing metadata||media is a no-op (C02_fixpoint), is not proved here; it is exercised by the
-   second run of the differential check (lib/props/c02.py). *)
+   Part (b), re-sanitizing metadata||media is a no-op: C02_fixpoint, proof in Mp4/LoopProofsFixpoint.v. *)
 From Coq Require Import List NArith ZArith Bool.
 From Coq.Strings Require Import Byte.
-From MS Require Import Base.Bytes Base.Outcome Base.Prog Mp4.Header Mp4.Box Mp4.San Mp4.Spec Mp4.LoopProofsMeta.
+From MS Require Import Base.Bytes Base.Outcome Base.Prog Mp4.Header Mp4.Box Mp4.San Mp4.Spec Mp4.SpliceSpec Mp4.LoopProofsMeta Mp4.LoopProofsFixpoint.
 Import ListNotations.
 Open Scope N_scope.
 
@@ -35,3 +34,19 @@ Theorem C02_metadata_is_boxes_of_input :
     ((psz = 0 /\ pad = 0) \/ psz = 8 + pad).
 Proof. exact metadata_is_boxes_of_input. Qed.
 Print Assumptions C02_metadata_is_boxes_of_input.
+
+(* (b) the file obtained by writing the returned metadata (md, then pad zero bytes) followed by the media span of the
+   input (Mp4/SpliceSpec.v: splice) is accepted again, by either kind of reader, with no metadata to rewrite and the
+   span (|md| + pad, len) -- for every input (until-EOF boxes in the media run included), every configuration with
+   limit < 2^32, whenever the spliced file has a u64 length; ilen/8 + 1 units of fuel suffice. *)
+Theorem C02_fixpoint :
+  forall (cfg : config) (lenient lenient2 : bool) (inp : input) (fuel fuel2 : nat) (o : out) (md : bytes) (pad : N),
+  max_metadata_size cfg < 4294967296 -> ilen inp <= U64MAX ->
+  (forall t, cumulative_mdat_box_size cfg = Some t -> t <= U32MAX) ->
+  mp4_sanitize cfg lenient U64MAX' inp fuel = Ok o -> o_metadata o = Some (md, pad) ->
+  let J := splice md pad inp (s_off (o_data o)) (s_len (o_data o)) in
+  ilen J <= U64MAX -> (N.to_nat (ilen J / 8) < fuel2)%nat ->
+  mp4_sanitize cfg lenient2 U64MAX' J fuel2 =
+  Ok {| o_metadata := None; o_data := {| s_off := blen md + pad; s_len := s_len (o_data o) |} |}.
+Proof. intros cfg lenient lenient2 inp fuel fuel2 o md pad Hm Hl Hc. exact (resanitize_fixpoint cfg inp lenient lenient2 Hm Hl Hc fuel fuel2 o md pad). Qed.
+Print Assumptions C02_fixpoint.
